@@ -50,6 +50,11 @@ checks["C16"]=dict(
    note="Trusted: go/types; the recognised shape of structObjectToBuilder (early-continue guards followed by a fall-through). Does not evaluate alias chains on concrete schemas.",
    technique="path enumeration over the structured field loop + shape lint of the derivation functions (type-resolved AST)",
    design="§3.C16")
+checks["C17"]=dict(
+   text="Structural necessary conditions on the veneer packages: ownership (no store through an element/pointer of an IR value received by value unless deep-copied first), duplicates via DeepCopy (whose completeness is re-checked here for the builder-side copy methods), unselected builders/options provably untouched (selector-guarded stores; the rewriter re-emits rejected options as is), assignment targets preserved (paths only extended, path items never rewritten, path-producing methods return fresh storage), documented write sets of the simple rules.",
+   note="Trusted: go/types; syntactic access paths with one level of local aliasing (no points-to analysis offline). Appends onto shared backing arrays of trail/comment string slices are not claimed. Type-correctness of paths on concrete schemas is not decided.",
+   technique="effects (write-set) analysis of veneer closures + ownership lint + selector-guardedness + copy-method coverage",
+   design="§3.C17")
 pending = {}
 props = [json.loads(l) for l in open(os.path.join(here, "properties.jsonl"))]
 m = {
